@@ -55,11 +55,24 @@ SPEC = Spec(
         "sendItems/timer and multiShardBatcher.consume, tied by exact differential on every run (payload trees, virtual "
         "timestamps, export-context metadata, refusals)",
         "pdata semantics used by the model: RemoveIf calls the closure once per element in order, MoveTo/MoveAndAppendTo, CopyTo",
+        "group-key computation (lower-casing/sorting of metadata_keys, Metadata.Get case-insensitivity, String vs StringSlice, "
+        "attribute.NewSet) is NOT modelled: Key = value lists of the configured keys as computed by the harness; exercised with "
+        "absent / empty / single / multi / REORDERED multi ([v2,v1] vs [v1,v2]) / near-colliding (v12 vs [v1,v2], v1 vs v10) values, "
+        "1-3 keys, lower/Title/UPPER header names",
+        "the export context is observed completely: the sink dumps client.Info (Auth, Addr, every metadata key) of every export; the "
+        "model says 'values of the configured keys only'; incoming contexts carry other headers, credentials and peer addresses",
         "attribute.NewSet is injective on the value lists of the configured keys (one value -> String, otherwise StringSlice); "
         "client.Metadata.Get is case-insensitive — exercised by the generator, not proved",
         "testing/synctest (go1.26): virtual time, run to quiescence after every label; one producer",
     ],
     assumptions=[
+        "SEQUENTIALISED HISTORIES: one Consume (incl. the shard goroutine's processItem) = one atomic label; 'accepted, still queued in "
+        "newItem' is expressed as arrive(key, empty) now + arrive(key, payload) at the drain. Channel buffering and producer "
+        "interleavings are not in the LTS: exact differential for the deterministic burst cases (k Consumes then Shutdown without "
+        "waiting, all three signals), monitored (sampled schedules) by producers-concurrent / cardinality-concurrent",
+        "C17_timeout / C17_proc_timeout hold for WELL-TIMED histories (WellTimed / ArrTagged: an arrival is never processed after a due "
+        "deadline, a firing happens exactly at its deadline - Go's select may take newItem when the timer is also ready); "
+        "C17_proc_timeout is stated for configurations with a timer (no timer: shard-level C17_timeout, items leave at arrival)",
         "multiShardBatcher.consume (lookup, limit check, shard insertion, size++) is ONE atomic label of the model (Proc.arrive): the code "
         "makes it so with mb.lock around check+insert; this atomicity is a modelling assumption, monitored by the native-goroutine "
         "stress harness cardinality-concurrent (also with -race), not proved",
